@@ -1670,6 +1670,32 @@ def oh_is_monogamous(c, a, st, v):
     nw = inv.values_len(f.f["h"].f["w"])
     if st.eq(nw, 0):
         bool_iff(c, st, v, ("true",), "is_monogamous: the diagram without nodes is monogamous (vacuously)")
+        return
+    if not st.ge(nw, 1):
+        return
+    # Definition (doc comment): both interface maps injective, and for every node
+    # in-degree + #occurrences in the source interface = 1, out-degree + #occurrences in the target interface = 1.
+    # "X is all ones" is stated through the two array observations the contract offers for it:
+    # X has no zero entry and max(X) <= 1  (rule ALL-ONES).
+    h = f.f["h"]
+    def bc(t):
+        return ("bincount", t, nw)
+    e = ("true",)
+    atoms = []
+    for leg in ("s", "t"):
+        m = ("max", bc(tab(f.f[leg])))
+        atoms.append(m)
+        e = f_and(e, ("cmp", "ge", Poly.const(1) - Poly.atom(m)))
+    for deg, cnt in ((tab(h.f["t"].f["values"]), tab(f.f["s"])), (tab(h.f["s"].f["values"]), tab(f.f["t"]))):
+        x = mk_add(st, bc(deg), bc(cnt))
+        if not path_has_atom(st, ("len", ("zero", x))) and not path_has_atom(st, ("max", x)) and \
+                not (isinstance(v, VBool) and (("max", x) in _formula_atoms_set(v.f) or ("len", ("zero", x)) in _formula_atoms_set(v.f))):
+            y = mk_add(st, bc(cnt), bc(deg))
+            if path_has_atom(st, ("len", ("zero", y))) or path_has_atom(st, ("max", y)):
+                x = y
+        e = f_and(e, f_and(("cmp", "eq", t_len(("zero", x))), ("cmp", "ge", Poly.const(1) - Poly.atom(("max", x)))))
+    bool_iff(c, st, v, e, "is_monogamous ⇔ both interfaces injective and (degree + interface count) has no zero and no entry above 1, "
+                          "on the source side (in-degrees) and on the target side (out-degrees)")
 
 
 @spec("acyclic::<impl strict::hypergraph::object::Hypergraph<K, O, A>>::is_acyclic", f"{S_OH}::<K, O, A>::is_acyclic")
@@ -1690,6 +1716,38 @@ def arrow_is_convex(c, a, st, v):
     arr = a["self"]
     if st.eq(t_len(tab(arr.f["w"])), 0) and st.eq(t_len(tab(arr.f["x"])), 0):
         bool_iff(c, st, v, ("true",), "is_convex_subgraph: the empty sub-hypergraph is convex")
+    # convex ⇒ monomorphism: on every path that can answer `true`, both maps are known to hit no value twice
+    f = v.f if isinstance(v, VBool) else None
+    if f is None or f == ("false",):
+        return
+    for leg, nm in (("w", "node"), ("x", "edge")):
+        m = arr.f[leg]
+        if st.eq(t_len(tab(m)), 0):
+            continue
+        goal = ("cmp", "ge", Poly.const(1) - Poly.atom(("max", ("bincount", tab(m), tgt(m)))))
+        bad = c.I.assume(st.copy(), f_and(f, f_not(goal)))
+        c.ob("ENS", f"is_convex_subgraph: true only for monomorphisms (the {nm} map is injective)",
+             f"result ⇒ {show_formula(goal)}", not bad, st)
+
+
+@spec("lax::var::forget::Forget as lax::functor::traits::Functor<O, A, O, A>>::map_operation")
+def forget_map_operation(c, a, st, v):
+    """Forget replaces exactly the variable-labelled operations; every other operation is kept as it is."""
+    h = hyp(v)
+    edges = h.f["edges"].t
+    s_, t_ = a["source"].t, a["target"].t
+    is_var = any(isinstance(k, tuple) and k and k[0] == "eq" and "HasVar::var" in k and truth for (k, truth) in st.unk)
+    if st.eq(t_len(edges), 1):
+        ns, nt = t_len(s_), t_len(t_)
+        c.teq(st, "forget keeps the operation: nodes = source type then target type", h.f["nodes"].t, mk_concat([s_, t_]))
+        c.teq(st, "forget keeps the operation: sources 0..|s|", v.f["sources"].t, mk_arange(0, ns))
+        c.teq(st, "forget keeps the operation: targets |s|..|s|+|t|", v.f["targets"].t, mk_arange(ns, ns + nt))
+        import contracts_lax
+        c.ob("ENS", "forget keeps the operation: the hyperedge carries the operation's own label",
+             f"edges ≡ [a]: got {show_term(edges)[:200]}", edges == ("single", ("user", contracts_lax.key_of(a["a"]))) or edges == ("single", contracts_lax.key_of(a["a"])), st)
+    else:
+        c.ob("ENS", "forget removes a hyperedge only if it is variable-labelled",
+             "hyperedge removed ⇒ the path established a == HasVar::var()", is_var, st)
 
 
 @spec(f"{S_H}::<K, O, A>::is_discrete")
